@@ -4,6 +4,9 @@
 // by induction over the script a run that succeeds under B succeeds under A (L1 part of property C09).
 #pragma once
 typedef verif_bytes sbytes; typedef verif_stack sstack;
+#ifdef H_MONO_SIG
+#define SPEC_WITH_SIG
+#endif
 #include "spec_step.h"
 #ifndef H_N
 #define H_N 0
@@ -28,7 +31,12 @@ extern "C" void h_mono(void) {
     __CPROVER_assume(s0.alt.base <= 1000000000UL);
     for (size_t i = 0; i < VERIF_STACK_W; ++i) { __CPROVER_assume(s0.stack.w[i].n <= VERIF_ITEM_CAP); __CPROVER_assume(s0.alt.w[i].n <= VERIF_ITEM_CAP); }
     __CPROVER_assume(cB.opcode <= 0xff && (H_OPSEL(cB.opcode)));
+#ifdef H_MONO_SIG
+    __CPROVER_assume(cB.sv == SSV_BASE || cB.sv == SSV_WITNESS_V0 || cB.sv == SSV_TAPSCRIPT || cB.sv == SSV_TAPROOT);
+    __CPROVER_assume(cB.sv != SSV_TAPROOT || cB.opcode == SOP_CHECKSIG);    // the key-path spend is the single operation <key> CHECKSIG
+#else
     __CPROVER_assume(cB.sv == SSV_BASE || cB.sv == SSV_WITNESS_V0 || cB.sv == SSV_TAPSCRIPT);
+#endif
     __CPROVER_assume(cB.push.n <= VERIF_ITEM_CAP || (cB.push.n > 520 && cB.push.n <= 10000));
     __CPROVER_assume(cB.opcode <= SOP_PUSHDATA4 || cB.push.n == 0);
     __CPROVER_assume(s0.nOpCount >= 0 && s0.nOpCount <= 201);
@@ -41,8 +49,26 @@ extern "C" void h_mono(void) {
     unsigned int drop = nondet_uint();
     cA.flags = cB.flags & ~drop;                          // A is any subset of B
     SpecState sA = s0, sB = s0;
+#ifdef H_MONO_SIG
+    // signature opcodes: the cryptographic verdicts (ECDSA / Schnorr verification, low-S, FindAndDelete counts, the
+    // --pretend-valid pair) are oracles that do not depend on the flags: the same arbitrary verdicts serve both runs
+    SpecSigOracles orc; SpecSigUse useA, useB;
+    for (int i = 0; i < VERIF_ORACLE_N; ++i) { orc.ecdsa_ok[i] = nondet_bool(); int f = nondet_int(); __CPROVER_assume(f >= 0 && f <= 3); orc.fad_result[i] = f; }
+    orc.schnorr_ok = nondet_bool(); orc.schnorr_err = nondet_int(); __CPROVER_assume(orc.schnorr_err >= (int)SCRIPT_ERR_SCHNORR_SIG_SIZE && orc.schnorr_err <= (int)SCRIPT_ERR_SCHNORR_SIG);
+    orc.lows_ok = nondet_bool(); orc.mock_on = nondet_bool(); __CPROVER_havoc_object(&orc.mock_sig); __CPROVER_havoc_object(&orc.mock_key);
+    __CPROVER_assume(orc.mock_sig.n <= VERIF_ITEM_CAP && orc.mock_key.n <= VERIF_ITEM_CAP);
+    useB.ecdsa_calls = 0; useB.schnorr_calls = 0; useB.fad_calls = 0; useB.weight = nondet_long(); __CPROVER_assume(useB.weight >= -1000 && useB.weight <= 4000000);
+    useA.ecdsa_calls = 0; useA.schnorr_calls = 0; useA.fad_calls = 0; useA.weight = useB.weight;   // (field-wise: the front end cannot generate the default assignment)
+#ifdef H_MS_KEYS
+    s0.stack.w[H_N - 1] = spec_enc(H_MS_KEYS); s0.stack.w[H_N - 2 - H_MS_KEYS] = spec_enc(H_MS_SIGS); sA = s0; sB = s0;
+#endif
+    g_spec_orc = &orc;
+    g_spec_use = &useB; SpecOut oB = spec_step(cB, sB);
+    g_spec_use = &useA; SpecOut oA = spec_step(cA, sA);
+#else
     SpecOut oB = spec_step(cB, sB);
     SpecOut oA = spec_step(cA, sA);
+#endif
     __CPROVER_assert(oB.kind != SO_OK, "canary: success under the larger flag set is reachable");
 #ifdef H_MONO_FLAGGED
     __CPROVER_assert(!(oB.kind != SO_OK && oA.kind == SO_OK), "canary: a flag that turns success into failure exists (restriction is real)");
@@ -51,5 +77,8 @@ extern "C" void h_mono(void) {
         __CPROVER_assert(oA.kind == SO_OK, "lemma: a step that succeeds under flag set B succeeds under every subset A of B");
         __CPROVER_assert(m_items_eq(sA.stack, sB.stack) && m_items_eq(sA.alt, sB.alt), "lemma: ... with the same main and alt stack");
         __CPROVER_assert(sA.cs_size == sB.cs_size && sA.cs_first_false == sB.cs_first_false && sA.nOpCount == sB.nOpCount && sA.codesep_moved == sB.codesep_moved && sA.codesep_pos == sB.codesep_pos, "lemma: ... with the same conditional nesting, op count and code-separator state");
+#ifdef H_MONO_SIG
+        __CPROVER_assert(useA.weight == useB.weight && useA.ecdsa_calls == useB.ecdsa_calls && useA.schnorr_calls == useB.schnorr_calls, "lemma: ... with the same signature budget and the same verifications requested");
+#endif
     }
 }
